@@ -93,7 +93,6 @@ func (c *Ctx) Go(name string, f func()) {
 func (c *Ctx) recoverTask(name string) {
 	if r := recover(); r != nil {
 		c.Violate(c.Prop+"/panic", "task %s panicked: %v @ %s", name, r, panicSite(debug.Stack()))
-		select {}
 	}
 }
 
@@ -203,6 +202,11 @@ func Exec(t *testing.T, h *Harness, prop string, cs simcore.Case, seed uint64, r
 			}
 			outcome := s.Run(func() bool { return c.finished.Load() || c.Violated() || s.Panicked() != "" }, maxSteps)
 			finish(outcome)
+			if outcome != "done" && os.Getenv("VERIF_DEBUG") != "" {
+				buf := make([]byte, 4<<20)
+				n := runtime.Stack(buf, true)
+				fmt.Fprintf(os.Stderr, "=== outcome %s; parked: %s\n%s\n", outcome, s.ParkedLabels(), buf[:n])
+			}
 			s.Stop()
 			if h.OneShot {
 				emit(res)
@@ -284,6 +288,7 @@ func envInt(k string, d int) int {
 func Worker(t *testing.T, hs map[string]*Harness, pick func(prop string) *Harness) {
 	runtime.GOMAXPROCS(1)
 	debug.SetGCPercent(400)
+	debug.SetMemoryLimit(1 << 30)
 	slog.SetDefault(discardLogger)
 	prop := os.Getenv("VERIF_PROP")
 	tier := os.Getenv("VERIF_TIER")
@@ -327,7 +332,12 @@ func Worker(t *testing.T, hs map[string]*Harness, pick func(prop string) *Harnes
 		}
 		runStart.Store(time.Now().UnixNano())
 		if mode == "replay" {
-			res, _, tr := Exec(t, h, prop, rf.Case, rf.Seed, nonNil(rf.Choices), os.Getenv("VERIF_TRACE") != "")
+			ch := rf.Choices
+			if ch == nil && rf.LogHash != 0 {
+				ch = []int32{}
+			}
+			// a seed-only file (engine crash: the schedule died with the process) re-runs in generate mode
+			res, _, tr := Exec(t, h, prop, rf.Case, rf.Seed, ch, os.Getenv("VERIF_TRACE") != "")
 			res.Run = rf.Run
 			emit(res)
 			if os.Getenv("VERIF_TRACE") != "" {
@@ -349,16 +359,27 @@ func Worker(t *testing.T, hs map[string]*Harness, pick func(prop string) *Harnes
 		seed := RunSeed(base, run)
 		r := rand.New(rand.NewPCG(seed, 0xca5e))
 		cs := h.Gen(r, prop, tier)
+		if mode == "gen" {
+			b, _ := json.Marshal(cs)
+			fmt.Println(string(b))
+			continue
+		}
 		curRun.Store(int64(run))
 		runStart.Store(time.Now().UnixNano())
 		fmt.Fprintf(os.Stderr, "RUNSTART %d\n", run)
-		res, choices, tr := Exec(t, h, prop, cs, seed, nil, false)
+		res, choices, tr := Exec(t, h, prop, cs, seed, nil, os.Getenv("VERIF_TRACE") != "")
 		res.Run = run
+		if f := os.Getenv("VERIF_TRACE"); f != "" {
+			os.WriteFile(f+".gen", []byte(strings.Join(tr, "\n")), 0o644)
+		}
 		if res.Violation != "" {
 			// determinism: the recorded schedule must reproduce the same violation and log
 			res2, _, tr2 := Exec(t, h, prop, cs, seed, nonNil(choices), true)
 			if res2.Class != res.Class || res2.LogHash != res.LogHash {
 				res.Note = fmt.Sprintf("NONDETERMINISTIC replay: class %q vs %q, log %x vs %x", res.Class, res2.Class, res.LogHash, res2.LogHash)
+			}
+			if f := os.Getenv("VERIF_TRACE"); f != "" {
+				os.WriteFile(f+".replay", []byte(strings.Join(tr2, "\n")), 0o644)
 			}
 			tr = tr2
 			p := writeRaw(prop, h, cs, res, choices, tr)
@@ -387,6 +408,15 @@ func shrinkInProcess(t *testing.T, h *Harness, prop string, rf *simcore.ReplayFi
 		runStart.Store(time.Now().UnixNano())
 		res, used, _ := Exec(t, h, prop, c.Case, rf.Seed, nonNil(c.Choices), false)
 		return res.Class == rf.Class, used
+	}
+	if rf.Choices == nil && rf.LogHash == 0 {
+		// seed-only file (the process died): first recover the schedule in generate mode
+		res, used, _ := Exec(t, h, prop, rf.Case, rf.Seed, nil, false)
+		if res.Class != rf.Class {
+			return rf
+		}
+		rf.Choices, rf.LogHash, rf.Violation = used, res.LogHash, res.Violation
+		rf.Original.Choices = len(used)
 	}
 	best, evals := simcore.Shrink(simcore.Candidate{Case: rf.Case, Choices: rf.Choices}, eval, maxEvals)
 	runStart.Store(time.Now().UnixNano())
